@@ -216,6 +216,14 @@ func New(ext func(e *Exec, f []string) (string, bool)) *Exec {
 		subs: map[string]*subState{}, ext: ext}
 }
 
+// UseDB switches the case to another (already registered and loaded) database.
+func (e *Exec) UseDB(name string) {
+	e.db = name
+	if c, err := database.VerifController(name); err == nil {
+		e.ctrl = c
+	}
+}
+
 // DB returns the database name of the case.
 func (e *Exec) DB() string { return e.db }
 
